@@ -300,6 +300,8 @@ static Node build(const json &d, ob::StateSpacePtr have = nullptr)
             ob::RealVectorBounds b(3);
             b.setLow(d["lo"].get<double>());
             b.setHigh(d["hi"].get<double>());
+            b.setLow(2, d.value("zlo", d["lo"].get<double>()));   // altitude range
+            b.setHigh(2, d.value("zhi", d["hi"].get<double>()));
             if (k == "Owen")
             {
                 auto sp = std::make_shared<ob::OwenStateSpace>(rho, mp);
@@ -1062,9 +1064,9 @@ static std::vector<Shipped> shipped()
                  J(R"({"k":"Comp","real":"Compound","sub":[{"k":"Comp","real":"SE3","sub":[{"k":"RV","n":3,"lo":0,"hi":1,"u":[1,1]},{"k":"SO3"}],"w":[[1,1],[1,1]]},{"k":"Time","lo":0,"hi":2,"u":[1,1]}],"w":[[1,2],[3,1]]})"),
                  true, true, false});
     // 3-D Dubins airplane spaces: distance = length of the computed path (no symmetry, no triangle inequality claimed)
-    v.push_back({"Owen", J(R"({"k":"Owen","rho":1.0,"lo":-3,"hi":3})"), false, true, false});
-    v.push_back({"Vana", J(R"({"k":"Vana","rho":1.0,"lo":-3,"hi":3})"), false, true, false});
-    v.push_back({"VanaOwen", J(R"({"k":"VanaOwen","rho":1.0,"lo":-3,"hi":3})"), false, true, false});
+    v.push_back({"Owen", J(R"({"k":"Owen","rho":1.0,"lo":-3,"hi":3,"zlo":-6,"zhi":6})"), false, true, false});
+    v.push_back({"Vana", J(R"({"k":"Vana","rho":1.0,"lo":-3,"hi":3,"zlo":-6,"zhi":6})"), false, true, false});
+    v.push_back({"VanaOwen", J(R"({"k":"VanaOwen","rho":1.0,"lo":-3,"hi":3,"zlo":-6,"zhi":6})"), false, true, false});
     // space-time: weighted compound of a space and time, infinite distance beyond the speed limit, infinite extent
     v.push_back({"SpaceTime", J(R"({"k":"SpaceTime","sub":[{"k":"RV","n":2,"lo":-2,"hi":2,"u":[1,1]},{"k":"Time","lo":0,"hi":4,"u":[1,1]}],"w":[[1,2],[1,2]],"v":[1,1]})"),
                  true, false, false});
@@ -1525,7 +1527,7 @@ static json spaceEvent(const Shipped &sh, const Node &nd)
             {"prec", sh.floatPrec ? "float" : "double"}, {"plain", false}, {"w", json::array()},
             {"res", res}, {"fam", nd.fam}, {"extInf", extInf},
             // family parameters (defaults for the families they do not concern)
-            {"lip", json::array({64, 64})}, {"tol4", 2}, {"vmax", json::array({1, 1})}, {"margin", 0},
+            {"lip", json::array({1, 1})}, {"tol3", 2}, {"vmax", json::array({1, 1})}, {"margin", 0},
             {"delta", 0}, {"tol0", tol}, {"aliasTol", 0}};
     if (sh.geo && ext * 1e6 * 64 > 2.0e9)
     {
@@ -1535,8 +1537,8 @@ static json spaceEvent(const Shipped &sh, const Node &nd)
     if (nd.fam == "airplane" && nd.k != "Owen")
         // Vana / VanaOwen interpolate the horizontal (x, y) and the vertical (s, z) projection of the path each at
         // fraction t of its own length: both speeds are bounded by the path length L, the curve by sqrt(2) L
-        // (91/64 = 1.42 >= sqrt 2); Owen's helix is traversed at constant speed L (factor 1)
-        ev["lip"] = json::array({91, 64});
+        // (23/16 = 1.4375 >= sqrt 2); Owen's helix is traversed at constant speed L (factor 1)
+        ev["lip"] = json::array({23, 16});
     if (nd.fam == "spacetime")
     {
         auto *st = nd.sp->as<ob::SpaceTimeStateSpace>();
@@ -1623,6 +1625,29 @@ static void canned(const std::string &name, const Node &nd, bool interp, std::ve
         };
     };
     const double h = PI / 2;
+    if (nd.fam == "airplane")
+    {
+        // (x, y, z[, pitch], yaw).  Level flight to a target a hair lower / at the same altitude; straight up;
+        // a target that needs a full vertical turn to be met at its pitch
+        const bool p4 = nd.sub[0].n == 4;
+        auto st = [p4](double x, double y, double z, double pitch, double yaw) {
+            return p4 ? std::vector<double>{x, y, z, pitch, yaw} : std::vector<double>{x, y, z, yaw};
+        };
+        Probe lv{"canned-level", fixed(st(0, 0, 0, 0, 0), st(2, 1, -1e-12, 0, 1), st(2, 1, 0, 0, 1)), true};
+        lv.s = 16;
+        lv.u = 32;
+        v.push_back(lv);
+        Probe up{"canned-climb", fixed(st(0, 0, -6, 0, 0), st(0, 0, 6, 0, 0), st(1, 0, 0, 0, 0)), true};
+        up.s = 32;
+        up.u = 32;
+        v.push_back(up);
+        Probe lp{"canned-loop", fixed(st(2.3206672534955057, -2.8236896010413703, -1.6222363590252522, 0.26252039922815729, 2.3319066520301472),
+                                      st(-0.53048339694114333, -1.2651370754926918, -3.5374345918801016, 0.34578803540627723, 2.8848752783501812),
+                                      st(0, 0, 0, 0, 0)), true};
+        lp.s = 48;
+        lp.u = 32;
+        v.push_back(lp);
+    }
     if (!interp)
     {
         if (name == "Mobius" || name == "WrapperMobius")
@@ -1773,6 +1798,74 @@ static std::vector<Probe> probes(const Node &nd, vt::Rng &r, bool interp)
                      gen(nd, b, r, r.below(2) ? HIGH : anyOf(), RANDOM, dl(), true);
                      third(c);
                  }});
+    if (nd.fam == "airplane")
+    {
+        // component 0 = (x, y, z[, pitch]), component 1 = yaw
+        auto rvOf = [](ob::State *s) { return s->as<ob::CompoundState>()->components[0]->as<ob::RealVectorStateSpace::StateType>()->values; };
+        const Node &rv = nd.sub[0];
+        // level flight: the same altitude (exactly, or a hair above / below) and the same pitch
+        v.push_back({"level", [&nd, &r, &rv, rvOf, third](ob::State *a, ob::State *b, ob::State *c) {
+                         static const double dzs[] = {0.0, 0.0, 1e-12, -1e-12, 1e-9, -1e-9, 1e-7, -1e-7};
+                         gen(nd, a, r, RANDOM, r.below(2) ? RANDOM : LATTICE, 0);
+                         gen(nd, b, r, RANDOM, r.below(2) ? RANDOM : LATTICE, 0);
+                         double z = rvOf(a)[2] + dzs[r.below(8)];
+                         rvOf(b)[2] = std::min(rv.hi[2], std::max(rv.lo[2], z));
+                         if (rv.n == 4)
+                         {
+                             if (r.below(2))
+                                 rvOf(a)[3] = 0;
+                             rvOf(b)[3] = rvOf(a)[3];
+                         }
+                         third(c);
+                     }});
+        // little room in the plane, much altitude to gain or lose: medium- and high-altitude paths (turn / helix)
+        v.push_back({"altitude", [&nd, &r, &rv, rvOf, third](ob::State *a, ob::State *b, ob::State *c) {
+                         gen(nd, a, r, RANDOM, RANDOM, 0);
+                         gen(nd, b, r, RANDOM, RANDOM, 0);
+                         const double rad = r.below(3) == 0 ? 0.0 : 1.5 * r.unit(), ang = 2 * PI * r.unit();
+                         rvOf(b)[0] = std::min(rv.hi[0], std::max(rv.lo[0], rvOf(a)[0] + rad * std::cos(ang)));
+                         rvOf(b)[1] = std::min(rv.hi[1], std::max(rv.lo[1], rvOf(a)[1] + rad * std::sin(ang)));
+                         if (r.below(2))
+                         {
+                             rvOf(a)[2] = r.below(2) ? rv.lo[2] : rv.hi[2];
+                             rvOf(b)[2] = rv.lo[2] + rv.hi[2] - rvOf(a)[2];
+                         }
+                         third(c);
+                     }});
+    }
+    if (nd.fam == "spacetime")
+    {
+        // on and next to the light cone: the time between the two states is what the motion needs at vMax, +- a little
+        v.push_back({"light-cone", [&nd, &r, third](ob::State *a, ob::State *b, ob::State *c) {
+                         static const double ds[] = {0.0, 0.0, 1e-12, -1e-12, 1e-9, -1e-9, 1e-6, -1e-6, 1e-3, -1e-3};
+                         auto *st = nd.sp->as<ob::SpaceTimeStateSpace>();
+                         const Node &tn = nd.sub[1];
+                         gen(nd, a, r, r.below(2) ? RANDOM : LATTICE, r.below(2) ? RANDOM : LATTICE, 0);
+                         nd.sp->copyState(b, a);
+                         // move the space component (positions only: same heading), then set the time
+                         Scoped tmp(nd);
+                         gen(nd, tmp(), r, RANDOM, r.below(2) ? RANDOM : LATTICE, 0);
+                         walk2(nd.sub[0], b->as<ob::CompoundState>()->components[0], tmp()->as<ob::CompoundState>()->components[0],
+                               [&](const Node &l, ob::State *x, const ob::State *y) {
+                                   if (l.k == "RV")
+                                       l.sp->copyState(x, y);
+                               });
+                         const double need = st->timeToCoverDistance(a, b) + ds[r.below(10)];
+                         double &ta = a->as<ob::CompoundState>()->components[1]->as<ob::TimeStateSpace::StateType>()->position;
+                         double &tb = b->as<ob::CompoundState>()->components[1]->as<ob::TimeStateSpace::StateType>()->position;
+                         if (need > tn.hi[0] - tn.lo[0])
+                             ta = tn.lo[0], tb = tn.hi[0];   // cannot be reached within the time bounds at all
+                         else
+                         {
+                             if (ta + need > tn.hi[0])
+                                 ta = tn.lo[0] + r.unit() * (tn.hi[0] - tn.lo[0] - need);
+                             tb = std::max(tn.lo[0], ta + need);
+                             if (r.below(2))
+                                 std::swap(ta, tb);   // the distance does not depend on the direction of time
+                         }
+                         third(c);
+                     }});
+    }
     if (nd.k == "SO3")
         // the resolution of the quaternion distance (MAX_QUATERNION_NORM_ERROR): demonstrated on SO(3) itself only
         v.push_back({"so3-threshold", [&nd, &r, third, interp](ob::State *a, ob::State *b, ob::State *c) {
@@ -1786,14 +1879,14 @@ static std::vector<Probe> probes(const Node &nd, vt::Rng &r, bool interp)
 
 // ------------------------------------------------------------------ observations of the new families
 
-static long long fx4(double d, bool &nonfinite)   // 1e-4 units (chords against path lengths: products stay 32-bit)
+static long long fx3(double d, bool &nonfinite)   // 1e-3 units (chords against path lengths: products stay 32-bit)
 {
     if (!std::isfinite(d))
     {
         nonfinite = true;
         return 0;
     }
-    return vt::tlcInt(std::llround(d * 1e4));
+    return vt::tlcInt(std::llround(d * 1e3));
 }
 
 // constrained: put a generated state on the constraint manifold (the unit sphere), as a user of the space would
@@ -1828,6 +1921,7 @@ struct Airplane
     std::function<bool(const ob::State *, const ob::State *, double &)> pathLength;   // false: no path found
     // interpolate(from, to, t, path, out) on the path getPath() returns; false (out untouched) when there is none
     std::function<bool(const ob::State *, const ob::State *, double, ob::State *)> viaPath;
+    std::function<char(const ob::State *, const ob::State *)> category;   // L / M / H (Owen, VanaOwen), '-' otherwise
     bool hasPitch{false};
     double pitchLo{0}, pitchHi{0};
 };
@@ -1858,13 +1952,34 @@ static Airplane airplaneOf(const Node &nd)
     }
     return ap;
 }
+template <class S>
+static std::function<char(const ob::State *, const ob::State *)> categoryOf(const Node &nd)
+{
+    const S *sp = nd.sp->as<S>();
+    return [sp](const ob::State *a, const ob::State *b) {
+        auto path = sp->getPath(a, b);
+        return path ? (char)path->category() : '0';
+    };
+}
 static Airplane airplane(const Node &nd)
 {
+    Airplane ap;
     if (nd.k == "Owen")
-        return airplaneOf<ob::OwenStateSpace>(nd);
-    if (nd.k == "Vana")
-        return airplaneOf<ob::VanaStateSpace>(nd);
-    return airplaneOf<ob::VanaOwenStateSpace>(nd);
+    {
+        ap = airplaneOf<ob::OwenStateSpace>(nd);
+        ap.category = categoryOf<ob::OwenStateSpace>(nd);
+    }
+    else if (nd.k == "Vana")
+    {
+        ap = airplaneOf<ob::VanaStateSpace>(nd);
+        ap.category = [](const ob::State *, const ob::State *) { return '-'; };
+    }
+    else
+    {
+        ap = airplaneOf<ob::VanaOwenStateSpace>(nd);
+        ap.category = categoryOf<ob::VanaOwenStateSpace>(nd);
+    }
+    return ap;
 }
 
 // space-time: one ordered pair
@@ -1954,7 +2069,8 @@ static int record(const std::string &out, long n, const std::string &filter, boo
                     ++events;
                     ++perClass[p.cls];
                     if (nontriv)
-                        nontrivial.insert(fnv(sh.name + e["repro"].get<std::string>()));
+                        // (a space of dimension 0 has one state: all its probes are one case)
+                        nontrivial.insert(fnv(sh.name + (nd.sp->getDimension() == 0 ? std::string() : e["repro"].get<std::string>())));
                 };
                 if (nd.fam == "spacetime" && !interp)
                 {
@@ -2004,6 +2120,14 @@ static int record(const std::string &out, long n, const std::string &filter, boo
                             ++facts[ap.pathLength(pq.first, pq.second, len) ? "airplane_pairs_with_path" : "airplane_pairs_without_path"];
                     }
                     ev["repro"] = "a=" + show(nd, a()) + " b=" + show(nd, b()) + " c=" + show(nd, c()) + (newFam ? hexes(true) : "");
+                    if (newFam)
+                    {
+                        // the raw values (fixed point cannot carry a non-finite one)
+                        char buf[320];
+                        snprintf(buf, sizeof buf, " distances: ab=%.17g ba=%.17g bc=%.17g cb=%.17g ac=%.17g ca=%.17g aa=%.17g", dab, dba,
+                                 dbc, dcb, dac, dca, daa);
+                        ev["repro"] = ev["repro"].get<std::string>() + buf;
+                    }
                     emit(ev);
                     continue;
                 }
@@ -2118,6 +2242,7 @@ static int record(const std::string &out, long n, const std::string &filter, boo
                     double plen = 0;
                     const bool has = ap.pathLength(a(), b(), plen);
                     ++facts[has ? "airplane_interp_with_path" : "airplane_interp_without_path"];
+                    ++facts[sh.name + "_path_category_" + std::string(1, ap.category(a(), b()))];
                     std::set<int> sorted(K.begin(), K.end());
                     json cks = json::array(), chord = json::array(), sameP = json::array(), pex = json::array();
                     Scoped prev(nd), viaP(nd);
@@ -2128,7 +2253,7 @@ static int record(const std::string &out, long n, const std::string &filter, boo
                         nd.sp->interpolate(a(), b(), t, pt());
                         cks.push_back(k);
                         if (!first)
-                            chord.push_back(fx4(euclid3(prev(), pt()), nf));
+                            chord.push_back(fx3(euclid3(prev(), pt()), nf));
                         first = false;
                         nd.sp->copyState(prev(), pt());
                         nd.sp->copyState(viaP(), pt());
@@ -2141,8 +2266,8 @@ static int record(const std::string &out, long n, const std::string &filter, boo
                     ev["nopath"] = !has;
                     ev["plen"] = fx(has ? plen : dab, nf);
                     ev["cks"] = cks;
-                    ev["chord4"] = chord;
-                    ev["dab4"] = fx4(dab, nf);
+                    ev["chord3"] = chord;
+                    ev["dab3"] = fx3(dab, nf);
                     ev["sameP"] = sameP;
                     ev["pex"] = pex;
                 }
